@@ -8,7 +8,7 @@ def run(rep, tier, seed, args):
     rep.rule = ('one case = one explored path of the real World.run() on a weak-loop scenario with max_loop_iterations = M symbolic (unbounded, >= 1): '
                 'the solver decides every comparison of a sub-step index with M, which outputs are present (loop length) and the reply order; '
                 'non-trivial = at least two steps were executed')
-    rep.bounds = {'loop participants': 'event-based simulators without self-scheduling (one hybrid variant with self-steps)', 'sub-steps': 'K <= 4 (quick) / 5 (thorough) per simulator',
+    rep.bounds = {'loop participants': 'event-based simulators without self-scheduling (one hybrid variant with self-steps)', 'sub-steps': 'K <= 4 (quick) / 6 (thorough) per simulator',
                   'until': 2, 'loop shapes': [t['name'] for t in K.topologies()], 'outside': 'loops with more than one weak connection per cycle are run but the sub-step count is then per tier; longer loops; real-time mode'}
     rep.assumptions = list(sysrun.STUBS) + ['sub-step indices are taken from the reference tiered time (validated against the repository scenarios)']
     rep.add_jobs(common.run_jobs(jobs))
